@@ -34,6 +34,7 @@ fn main() {
         "c02-spec" => c02::spec(rest),
         "c03-spec" => frag::spec(rest),
         "c15-spec" => c15::spec(rest),
+        "alias-ops" => c15::ops(rest),
         "c13-spec" => c13::spec(rest),
         "c17-spec" => c17::spec(rest),
         "c06-spec" => props::c06(rest),
